@@ -4,6 +4,7 @@ import TflModel.Props.C01
 import TflModel.Props.C06
 import TflModel.Lemmas.Linear
 import TflModel.Lemmas.Kahn
+import TflModel.Lemmas.VerifyLinear
 /-!
 # C16 — configurations are rejected up front (`ValueError`) or handled totally and finitely;
 synonymous spellings configure identical behaviour
@@ -19,7 +20,7 @@ checks around them and the `utils.py` canonicalisers, as `Raw → Except Err Cfg
   increasing, trust `main ≠ cond`, …); `verifyLattice_cfgWF`: accepted ⇒ the well-formedness
   hypothesis `Tfl.C01.CfgWF` of the C01 theorems.
 * categorical cycle check (fix 66006cc): `verifyCategorical_kahn` / `_pacyclic` / `_acyclic`: every
-  accepted pair list passes the round-based check, has no cycle, and (integral indices) its `Nat`
+  accepted pair list passes the round-based check, has no cycle and integral indices, and its `Nat`
   form is `Tfl.Poset.Acyclic` — the HYPOTHESIS of the C06 `*_acyclic` theorems;
   `verifyCategorical_accepts_iff`: the check rejects exactly the cyclic lists;
   `categoricalLayer_projection_total`: for every accepted layer configuration the projection does
@@ -312,129 +313,7 @@ theorem verifyPwl_ok (kp omin omax mono conv cyc kpt : Val) (c : PwlCfg)
                     exact hcyc
 
 
-/-! ### Linear -/
-
-theorem getD_tail {α} (l : List α) (d : Nat) (x : α) : l.tail.getD d x = l.getD (d + 1) x := by
-  cases l <;> simp
-
-/-- the scaling of dimension `d` is non-zero as soon as its input range is non-degenerate -/
-theorem scalings_getD_ne_zero : ∀ (monos : List Int) (los his : List (Option Rat)) (d : Nat),
-    d < monos.length →
-    (∀ l h, los.getD d none = some l → his.getD d none = some h → l ≠ h) →
-    (Tfl.Linear.scalings monos los his).getD d 0 ≠ 0 := by
-  intro monos
-  induction monos with
-  | nil => intro _ _ d hd; simp at hd
-  | cons m ms ih =>
-    intro los his d hd hne
-    cases d with
-    | zero =>
-      simp only [Tfl.Linear.scalings, List.getD_cons_zero]
-      have hs : (if m = -1 then (-1 : Rat) else 1) ≠ 0 := by split_ifs <;> norm_num
-      refine mul_ne_zero hs ?_
-      cases hl : los.headD none with
-      | none => simp
-      | some l =>
-        cases hh : his.headD none with
-        | none => simp
-        | some h =>
-          simp only
-          have := hne l h (by cases los <;> simp_all) (by cases his <;> simp_all)
-          intro e
-          exact this (by linarith)
-    | succ d =>
-      simp only [Tfl.Linear.scalings, List.getD_cons_succ]
-      apply ih los.tail his.tail d (by simpa using hd)
-      intro l h hl hh
-      rw [getD_tail] at hl hh
-      exact hne l h hl hh
-
-/-- what the range-dominance loop establishes for one dimension: both bounds are given and
-`input_min < input_max` (fix 7189cd2) -/
-def RangeOK (imin imax : Option (List Atom)) (d : Nat) : Prop :=
-  ∃ l h : Rat, ((imin.getD []).getD d .none).num = some l ∧ ((imax.getD []).getD d .none).num = some h ∧ l < h
-
-theorem rdDimBad_false {imin imax : Option (List Atom)} {d : Nat} (h : rdDimBad imin imax d = .ok false) :
-    RangeOK imin imax d := by
-  simp only [rdDimBad, bind, Except.bind] at h
-  split at h
-  · cases h
-  · split at h
-    · cases h
-    · split at h
-      · cases h
-      · split at h
-        · cases h
-        · unfold rangeEmpty at h
-          split at h
-          · rename_i a b ha hb
-            simp only [Except.ok.injEq, decide_eq_false_iff_not, not_le] at h
-            exact ⟨a, b, ha, hb, h⟩
-          · cases h
-
-theorem linRdLoop_spec {mono : List Atom} {imin imax : Option (List Atom)} :
-    ∀ (xs : List Item) (acc ps : List (Nat × Nat)),
-      (∀ p ∈ acc, (p.1 < mono.length ∧ p.2 < mono.length) ∧ RangeOK imin imax p.1 ∧ RangeOK imin imax p.2) →
-      linRdLoop mono imin imax xs acc = .ok ps →
-      ∀ p ∈ ps, (p.1 < mono.length ∧ p.2 < mono.length) ∧ RangeOK imin imax p.1 ∧ RangeOK imin imax p.2 := by
-  intro xs
-  induction xs with
-  | nil =>
-    intro acc ps hacc h
-    simp only [linRdLoop, Except.ok.injEq] at h
-    subst h
-    intro p hp
-    exact hacc p (List.mem_reverse.mp hp)
-  | cons it rest ih =>
-    intro acc ps hacc h
-    simp only [linRdLoop, bind, Except.bind] at h
-    split at h
-    · cases h
-    · split at h
-      · cases h
-      · split at h
-        · rename_i tp a b _hlen
-          split at h
-          · cases h
-          · rename_i bad hbad
-            split at h
-            · cases h
-            · rename_i hb
-              split at h
-              · cases h
-              · rename_i hint
-                have hb' : bad = false := by simpa using hb
-                subst hb'
-                have hd := dims_ok hbad (by simpa using hint)
-                split at h
-                · cases h
-                · split at h
-                  · cases h
-                  · rename_i miss hmiss
-                    split at h
-                    · cases h
-                    · rename_i hm
-                      have hm' : miss = false := by simpa using hm
-                      subst hm'
-                      have hr : RangeOK imin imax (atomNat a) ∧ RangeOK imin imax (atomNat b) := by
-                        simp only [rdBoundsMissing, bind, Except.bind] at hmiss
-                        split at hmiss
-                        · cases hmiss
-                        · rename_i b1 h1
-                          split at hmiss
-                          · cases hmiss
-                          · rename_i hb1
-                            have e : b1 = false := by simpa using hb1
-                            subst e
-                            exact ⟨rdDimBad_false h1, rdDimBad_false hmiss⟩
-                      split at h
-                      · cases h
-                      · apply ih _ ps _ h
-                        intro p hp
-                        rcases List.mem_cons.mp hp with e | e
-                        · subst e; exact ⟨⟨hd.1.atomNat_lt, hd.2.atomNat_lt⟩, hr⟩
-                        · exact hacc p e
-        · cases h
+/-! ### Linear (loop invariants and the scalings lemmas: Lemmas/VerifyLinear.lean) -/
 
 /-- **C16-T1 (linear, range dominance)**: for an accepted configuration every range-dominance
 dimension is in range, has both input bounds and a NON-EMPTY input range `input_min < input_max`
@@ -445,70 +324,24 @@ theorem verifyLinear_range_scaling (nid : Option Nat) (mv mdv rdv iminv imaxv : 
     ∀ p ∈ c.rd, ∀ d, d = p.1 ∨ d = p.2 →
       d < c.monos.length ∧
       (∃ l h' : Rat, c.los.getD d none = some l ∧ c.his.getD d none = some h' ∧ l < h') ∧
-      (Tfl.Linear.scalings c.monos c.los c.his).getD d 0 ≠ 0 := by
+      (Tfl.Linear.scalings c.monos c.rd c.los c.his).getD d 0 ≠ 0 := by
   intro p hp d hd
-  have key : d < c.monos.length ∧ RangeOK c.imin c.imax d := by
-    simp only [verifyLinear, bind, Except.bind] at h
-    split at h
-    · cases h
-    · rename_i mono _
-      split at h
-      · cases h
-      · rename_i imin _
-        split at h
-        · cases h
-        · rename_i imax _
-          split at h
-          · cases h
-          · split at h
-            · cases h
-            · split at h
-              · cases h
-              · split at h
-                · cases h
-                · split at h
-                  · cases h
-                  · split at h
-                    · cases h
-                    · rename_i md _
-                      split at h
-                      · cases h
-                      · rename_i rd hrd
-                        split at h
-                        · cases h
-                        · simp only [pure, Except.pure, Except.ok.injEq] at h
-                          subst h
-                          simp only [LinCfg.monos, List.length_map]
-                          simp only at hp
-                          unfold linRd at hrd
-                          split at hrd
-                          · simp only [Except.ok.injEq] at hrd
-                            subst hrd; cases hp
-                          · split at hrd
-                            · cases hrd
-                            · rename_i m
-                              simp only [bind, Except.bind] at hrd
-                              split at hrd
-                              · cases hrd
-                              · have := linRdLoop_spec _ _ _ (fun q hq => by cases hq) hrd p hp
-                                simp only [Option.getD_some]
-                                rcases hd with e | e <;> subst e
-                                · exact ⟨this.1.1, this.2.1⟩
-                                · exact ⟨this.1.2, this.2.2⟩
-  obtain ⟨hlt, l, h', hl, hh, hlh⟩ := key
-  have hlos : c.los.getD d none = some l := by
-    simp only [LinCfg.los, List.getD_eq_getElem?_getD, List.getElem?_map]
-    cases hx : (c.imin.getD [])[d]? with
-    | none => simp [List.getD_eq_getElem?_getD, hx, Atom.num] at hl
-    | some x => simp [List.getD_eq_getElem?_getD, hx] at hl ⊢; exact hl
-  have hhis : c.his.getD d none = some h' := by
-    simp only [LinCfg.his, List.getD_eq_getElem?_getD, List.getElem?_map]
-    cases hx : (c.imax.getD [])[d]? with
-    | none => simp [List.getD_eq_getElem?_getD, hx, Atom.num] at hh
-    | some x => simp [List.getD_eq_getElem?_getD, hx] at hh ⊢; exact hh
-  refine ⟨hlt, ⟨l, h', hlos, hhis, hlh⟩, ?_⟩
-  exact scalings_getD_ne_zero _ _ _ d hlt (fun l2 h2 e1 e2 => by
-    rw [hlos] at e1; rw [hhis] at e2; cases e1; cases e2; exact ne_of_lt hlh)
+  obtain ⟨hlt, hr⟩ := verifyLinear_range h hp hd
+  exact ⟨hlt, hr, verifyLinear_scalings_ne_zero h d hlt⟩
+
+/-- **C16-T1 (linear): the division by the scalings is total.** For EVERY configuration accepted by
+`linear_lib.verify_hyperparameters` NO entry of the scalings of `project` is zero — on the
+dimensions of the range-dominance pairs by the verified `input_min < input_max`, on every other
+dimension because it keeps `±1` since fix 44c9e89 (before it an accepted configuration with
+`input_min = input_max` on a dimension outside the dominances made the real projection return
+NaN: F-C06-a; the rational model, where `x / 0 = 0`, could not show it). -/
+theorem verifyLinear_scalings_nonzero (nid : Option Nat) (mv mdv rdv iminv imaxv : Val) (c : LinCfg)
+    (h : verifyLinear nid mv mdv rdv iminv imaxv = .ok c) :
+    ∀ k, k < (Tfl.Linear.scalings c.monos c.rd c.los c.his).length →
+      Tfl.Poset.getV (Tfl.Linear.scalings c.monos c.rd c.los c.his) k ≠ 0 := by
+  intro k hk
+  rw [Tfl.Linear.scalings_length] at hk
+  exact verifyLinear_scalings_ne_zero h k hk
 
 /-! ### Categorical, KFL -/
 
@@ -516,7 +349,9 @@ theorem catPair_spec {nb : Option Int} {it : Item} {p : Rat × Rat} (h : catPair
     0 ≤ p.1 ∧ 0 ≤ p.2 ∧ ∀ k : Int, nb = some k → p.1 < k ∧ p.2 < k := by
   unfold catPair at h
   split at h
-  · simp only [bind, Except.bind] at h
+  · split at h
+    · cases h
+    simp only [bind, Except.bind] at h
     split at h
     · cases h
     · split at h
@@ -619,8 +454,53 @@ theorem verifyCategorical_pacyclic (nb omin omax mono : Val) (c : CatCfg)
     (h : verifyCategorical nb omin omax mono = .ok c) : PAcyclic c.pairs :=
   kahnAcyclic_sound _ _ (verifyCategorical_kahn nb omin omax mono c h)
 
-/-- every index is integral (a Python int, or a float such as `1.0`) -/
+/-- every index is integral -/
 def IntPairs (ps : List (Rat × Rat)) : Prop := ∀ p ∈ ps, p.1.den = 1 ∧ p.2.den = 1
+
+/-- an accepted pair consists of two Python ints (fix ab2e39a: `isinstance(i, numbers.Integral)`) -/
+theorem catPair_int {nb : Option Int} {it : Item} {p : Rat × Rat} (h : catPair nb it = .ok p) :
+    p.1.den = 1 ∧ p.2.den = 1 := by
+  unfold catPair at h
+  split at h
+  · rename_i t a b
+    split at h
+    · cases h
+    · rename_i hint
+      simp only [Bool.not_eq_true, Bool.not_eq_false', Bool.and_eq_true] at hint
+      cases a <;> simp only [Atom.isInt] at hint <;> try exact absurd hint.1 (by decide)
+      cases b <;> simp only [Atom.isInt] at hint <;> try exact absurd hint.2 (by decide)
+      simp only [Atom.toNum, Atom.num, bind, Except.bind] at h
+      split at h
+      · cases h
+      · split at h
+        · cases h
+        · split at h
+          · split at h
+            · cases h
+            · simp only [pure, Except.pure, Except.ok.injEq] at h
+              subst h; exact ⟨rfl, rfl⟩
+          · simp only [pure, Except.pure, Except.ok.injEq] at h
+            subst h; exact ⟨rfl, rfl⟩
+  · cases h
+
+/-- **C16-T1 (categorical, fix ab2e39a)** whatever the categorical validation accepts — for ALL
+raw arguments — has integral bucket indices: floats (`1.0` as well as `1.5`), `None` and strings
+are rejected with a `ValueError` (formerly the hypothesis `IntPairs` of the theorems below,
+excluded by finding F-C16-t: a float index was accepted and the first projection raised
+`TypeError`). -/
+theorem verifyCategorical_intPairs (nb omin omax mono : Val) (c : CatCfg)
+    (h : verifyCategorical nb omin omax mono = .ok c) : IntPairs c.pairs := by
+  have hps := (verifyCategorical_parts h).1
+  intro p hp
+  unfold catPairs at hps
+  split at hps
+  · simp only [Except.ok.injEq] at hps; rw [← hps] at hp; cases hp
+  · split at hps
+    · split at hps
+      · cases hps
+      · obtain ⟨it, _, hpi⟩ := mapE_mem hps hp
+        exact catPair_int hpi
+    · cases hps
 
 theorem floor_toNat_inj {a b : Rat} (ha : 0 ≤ a) (hb : 0 ≤ b) (hai : a.den = 1) (hbi : b.den = 1)
     (h : a.floor.toNat = b.floor.toNat) : a = b := by
@@ -632,15 +512,15 @@ theorem floor_toNat_inj {a b : Rat} (ha : 0 ≤ a) (hb : 0 ≤ b) (hai : a.den =
   have : a.num = b.num := by omega
   rw [← ea, ← eb, this]
 
-/-- **C16 → C06 (the `Acyclic` hypothesis is discharged by construction)**: for every accepted
-categorical configuration with integral indices, the pair set handed to the projection is
-`Tfl.Poset.Acyclic` — the hypothesis of `Tfl.C06.categorical_pairs_and_bounds_acyclic`,
-`categorical_fixpoint_acyclic` and of `Tfl.Poset.topoSort_valid`. (Non-integral floats such as
-`1.5` pass the validation too; they are no buckets, hence the integrality hypothesis. It holds
-whenever the raw indices are Python ints: `verifyCategorical_intPairs`.) -/
+/-- **C16 → C06 (the `Acyclic` hypothesis is discharged by construction)**: for EVERY accepted
+categorical configuration, the pair set handed to the projection is `Tfl.Poset.Acyclic` — the
+hypothesis of `Tfl.C06.categorical_pairs_and_bounds_acyclic`, `categorical_fixpoint_acyclic` and
+of `Tfl.Poset.topoSort_valid`. No side condition is left: the indices are integral by
+`verifyCategorical_intPairs` (fix ab2e39a). -/
 theorem verifyCategorical_acyclic (nb omin omax mono : Val) (c : CatCfg)
-    (h : verifyCategorical nb omin omax mono = .ok c) (hint : IntPairs c.pairs) :
+    (h : verifyCategorical nb omin omax mono = .ok c) :
     Tfl.Poset.Acyclic c.natPairs := by
+  have hint := verifyCategorical_intPairs nb omin omax mono c h
   have hok := (verifyCategorical_ok nb omin omax mono c h).2
   have hnn : ∀ a, PNode c.pairs a → 0 ≤ a ∧ a.den = 1 := by
     rintro a ⟨p, hp, e | e⟩
@@ -649,42 +529,6 @@ theorem verifyCategorical_acyclic (nb omin omax mono : Val) (c : CatCfg)
   exact (pacyclic_nat_iff _).mp (pacyclic_map (fun r : Rat => r.floor.toNat)
     (fun a b ha hb e => floor_toNat_inj (hnn a ha).1 (hnn b hb).1 (hnn a ha).2 (hnn b hb).2 e)
     (verifyCategorical_pacyclic nb omin omax mono c h))
-
-theorem catPair_int {nb : Option Int} {it : Item} {p : Rat × Rat} (hi : intPairItem it = true)
-    (h : catPair nb it = .ok p) : p.1.den = 1 ∧ p.2.den = 1 := by
-  unfold intPairItem at hi
-  split at hi
-  · rename_i t i j
-    simp only [catPair, Atom.toNum, Atom.num, bind, Except.bind] at h
-    split at h
-    · cases h
-    · split at h
-      · cases h
-      · split at h
-        · split at h
-          · cases h
-          · simp only [pure, Except.pure, Except.ok.injEq] at h
-            subst h; exact ⟨rfl, rfl⟩
-        · simp only [pure, Except.pure, Except.ok.injEq] at h
-          subst h; exact ⟨rfl, rfl⟩
-  · cases hi
-
-/-- raw indices that are Python ints give integral accepted indices -/
-theorem verifyCategorical_intPairs (nb omin omax mono : Val) (c : CatCfg)
-    (h : verifyCategorical nb omin omax mono = .ok c) (hraw : mono.intPairs = true) : IntPairs c.pairs := by
-  have hps := (verifyCategorical_parts h).1
-  intro p hp
-  unfold catPairs at hps
-  split at hps
-  · simp only [Except.ok.injEq] at hps; rw [← hps] at hp; cases hp
-  · split at hps
-    · rename_i xs
-      split at hps
-      · cases hps
-      · obtain ⟨it, hit, hpi⟩ := mapE_mem hps hp
-        simp only [Val.intPairs, List.all_eq_true] at hraw
-        exact catPair_int (hraw it hit) hpi
-    · cases hps
 
 /-- **the cycle check rejects EXACTLY the cyclic pair lists**: with bounds in order and every pair
 well-formed and in range, the configuration is accepted iff its pair list has no cycle
@@ -711,14 +555,14 @@ theorem floor_toNat_lt {r : Rat} {k : Int} (h : r < k) (h0 : 0 ≤ r) : r.floor.
   omega
 
 /-- **C16 + C06 (categorical): accepted ⇒ the projection is total and enforces the configuration.**
-For EVERY configuration accepted by the model of `CategoricalCalibration.__init__` (integral
-indices) and every kernel column with `num_buckets` entries, the constraint
+For EVERY configuration accepted by the model of `CategoricalCalibration.__init__` and every
+kernel column with `num_buckets` entries, the constraint
 `CategoricalCalibrationConstraints.__call__` (model `Tfl.Categorical.project`) does not raise, and
 returns a column of the same length that satisfies every monotonicity pair and lies within the
 output bounds. No acyclicity, range or bound-order hypothesis is left: all three are what the
 constructor has verified. -/
 theorem categoricalLayer_projection_total (r : RawCat) (c : CatCfg) (h : categoricalLayer r = .ok c)
-    (hint : IntPairs c.pairs) (n : Nat) (hn : c.buckets = some n) (w : List Rat) (hw : w.length = n) :
+    (n : Nat) (hn : c.buckets = some n) (w : List Rat) (hw : w.length = n) :
     ∃ out, Tfl.Categorical.project c.lo c.hi c.natPairs w = .ok out ∧
       Tfl.Poset.Feasible c.natPairs out ∧ out.length = w.length ∧
       ∀ k, k < out.length → (∀ l, c.lo = some l → l ≤ Tfl.Poset.getV out k) ∧
@@ -732,7 +576,7 @@ theorem categoricalLayer_projection_total (r : RawCat) (c : CatCfg) (h : categor
     rw [hnb] at hb
     simp only [Option.map_some, Option.some.injEq] at hb
     refine Tfl.C06.categorical_pairs_and_bounds_acyclic c.lo c.hi c.natPairs w
-      (verifyCategorical_acyclic r.nb r.omin r.omax r.mono c h hint) ?_ hok.1
+      (verifyCategorical_acyclic r.nb r.omin r.omax r.mono c h) ?_ hok.1
     intro a ha
     obtain ⟨p, hp, e⟩ := natPairs_node ha
     obtain ⟨h1, h2, h3⟩ := hok.2 p hp
@@ -745,14 +589,14 @@ theorem categoricalLayer_projection_total (r : RawCat) (c : CatCfg) (h : categor
 /-- the same for the constraints class, which does not know `num_buckets`: the indices must lie
 inside the column (what the layer's `num_buckets` check provides) -/
 theorem categoricalConstraints_projection_total (r : RawCatC) (c : CatCfg) (h : categoricalConstraints r = .ok c)
-    (hint : IntPairs c.pairs) (w : List Rat) (hin : ∀ p ∈ c.pairs, p.1 < w.length ∧ p.2 < w.length) :
+    (w : List Rat) (hin : ∀ p ∈ c.pairs, p.1 < w.length ∧ p.2 < w.length) :
     ∃ out, Tfl.Categorical.project c.lo c.hi c.natPairs w = .ok out ∧
       Tfl.Poset.Feasible c.natPairs out ∧ out.length = w.length ∧
       ∀ k, k < out.length → (∀ l, c.lo = some l → l ≤ Tfl.Poset.getV out k) ∧
         (∀ h', c.hi = some h' → Tfl.Poset.getV out k ≤ h') := by
   have hok := verifyCategorical_ok _ r.omin r.omax r.mono c h
   refine Tfl.C06.categorical_pairs_and_bounds_acyclic c.lo c.hi c.natPairs w
-    (verifyCategorical_acyclic _ r.omin r.omax r.mono c h hint) ?_ hok.1
+    (verifyCategorical_acyclic _ r.omin r.omax r.mono c h) ?_ hok.1
   intro a ha
   obtain ⟨p, hp, e⟩ := natPairs_node ha
   obtain ⟨h1, h2, _⟩ := hok.2 p hp
@@ -918,7 +762,7 @@ theorem fixed_C16_a_zero_range_rejected :
     outcome (linearConstraints ⟨.s false [.a (.int 1), .a (.int 1)], .a .none,
       .s false [.s true [.int 0, .int 1]], .s false [.a (.flt 0), .a (.flt 0)],
       .s false [.a (.flt 1), .a (.flt 0)]⟩) = 1 ∧
-    (Tfl.Linear.scalings [1, 1] [some 0, some 0] [some 1, some 0]).getD 1 1 = 0 := by decide +kernel
+    (Tfl.Linear.scalings [1, 1] [(0, 1)] [some 0, some 0] [some 1, some 0]).getD 1 1 = 0 := by decide +kernel
 
 /-- **F-C16-f** a dominance given as ONE tuple to `LinearConstraints` / `Linear` is a `TypeError`
 (`len()` of an int), not a `ValueError` -/
@@ -1154,8 +998,9 @@ theorem fixed_C16_i_linear_layer_bounds_verified :
 
 /-- **F-C16-l, fixed by 66006cc**: circular categorical monotonicity pairs are rejected with a
 `ValueError` at construction (layer and constraints class): the 2-cycle, the cycle behind a root
-`[(0,1),(1,2),(2,1)]` that `_topological_sort` never rejected, a self pair, a cycle closed through a
-float-spelled index; chains, diamonds and repeated pairs are accepted. -/
+`[(0,1),(1,2),(2,1)]` that `_topological_sort` never rejected, a self pair, a cycle through a
+float-spelled index (rejected for the float already since ab2e39a); chains, diamonds and repeated
+pairs are accepted. -/
 theorem fixed_C16_l_circular_pairs_rejected :
     let pr (i j : Int) : Item := .s true [.int i, .int j]
     let lay (ps : List Item) : Nat := outcome (categoricalLayer ⟨.a (.int 4), .a .none, .a .none, .s false ps⟩)
@@ -1164,6 +1009,17 @@ theorem fixed_C16_l_circular_pairs_rejected :
     outcome (categoricalConstraints ⟨.a .none, .a .none, .s false [pr 0 1, pr 1 2, pr 2 1]⟩) = 1 ∧
     lay [pr 0 1, pr 1 2] = 0 ∧ lay [pr 0 1, pr 0 2, pr 1 3, pr 2 3] = 0 ∧ lay [pr 0 1, pr 0 1] = 0 ∧
     lay [pr 2 3, pr 1 2, pr 0 1] = 0 := by decide +kernel
+
+/-- **F-C16-t, fixed by ab2e39a**: a bucket index that is not a Python int — the float `1.5`, the
+integral floats `1.0` / `0.0`, `None`, a string — is rejected with a `ValueError` at construction by
+the layer and by the constraints class (it was accepted, and the first projection raised
+`TypeError: list indices must be integers`); ints and bools (`True` is the int 1) are accepted. -/
+theorem fixed_C16_t_non_integer_index_rejected :
+    let lay (a b : Atom) : Nat := outcome (categoricalLayer ⟨.a (.int 3), .a .none, .a .none, .s false [.s true [a, b]]⟩)
+    let con (a b : Atom) : Nat := outcome (categoricalConstraints ⟨.a .none, .a .none, .s false [.s true [a, b]]⟩)
+    lay (.int 0) (.flt 1) = 1 ∧ lay (.int 0) (.flt (3/2)) = 1 ∧ lay (.flt 0) (.int 1) = 1 ∧ lay .none (.int 1) = 1 ∧
+    lay (.int 0) (.str .other) = 1 ∧ con (.int 0) (.flt 1) = 1 ∧ con (.flt (1/2)) (.int 1) = 1 ∧
+    lay (.int 0) (.int 1) = 0 ∧ con (.int 0) (.int 1) = 0 := by decide +kernel
 
 /-- **F-C16-k, fixed by 7b8a1bf (and c6f03d2 for the categorical part)**: the failure was one of
 dtypes at the first call (a float32 `tf.ones` concatenated with float64 interpolation weights), which
